@@ -313,7 +313,7 @@ def load_many(cfgs):
 
 if __name__ == '__main__':
     t0 = time.time()
-    cfgs = ['K1', 'K2', 'K3', 'K4'] if '--warm' in sys.argv else sys.argv[1:] or ['K1']
+    cfgs = ['K1', 'K2', 'K3', 'K4', 'K1r', 'K2r'] if '--warm' in sys.argv else sys.argv[1:] or ['K1']
     ok, errors = load_many(cfgs)
     for c, f in ok.items():
         print('%s: %d bodies, %d adts, %d impls, features=%s, std=%s, %d diags' % (
